@@ -111,6 +111,8 @@ class StructureMetaType(MetaType):
         lookup = {}
         raw_lookup = {}
         field_names = []
+        # The properties that forward to the fields of anonymous structure members
+        folded = {}
         for field in fields:
             if field._name in lookup and field._name != "_":
                 raise ValueError(f"Duplicate field name: {field._name}")
@@ -121,7 +123,7 @@ class StructureMetaType(MetaType):
                         raise ValueError(f"Duplicate field name: {anon_field.name}")
 
                     attr = f"{field._name}.{anon_field.name}"
-                    classdict[anon_field.name] = property(attrgetter(attr), attrsetter(attr))
+                    classdict[anon_field.name] = folded[anon_field.name] = property(attrgetter(attr), attrsetter(attr))
 
                 lookup.update(field.type.fields)
             else:
@@ -178,6 +180,12 @@ class StructureMetaType(MetaType):
         classdict["size"] = size
         classdict["alignment"] = alignment
         classdict["dynamic"] = size is None
+
+        for name, forward in folded.items():
+            if classdict[name] is not forward:
+                # A field of an anonymous member that is named like an attribute of the class (size, alignment, ...):
+                # instances reach the field, the class keeps its attribute
+                classdict[name] = _FoldedField(forward, classdict[name])
 
         return classdict
 
@@ -824,6 +832,22 @@ class UnionProxy:
             if attr in target.__dict__:
                 target.__dict__[attr] = previous
             raise
+
+
+class _FoldedField:
+    """A forwarded field of an anonymous structure member whose name is also the name of a class attribute."""
+
+    def __init__(self, forward: property, class_value: Any):
+        self.forward = forward
+        self.class_value = class_value
+
+    def __get__(self, obj: Any, objtype: type | None = None) -> Any:
+        if obj is None:
+            return self.class_value
+        return self.forward.fget(obj)
+
+    def __set__(self, obj: Any, value: Any) -> None:
+        self.forward.fset(obj, value)
 
 
 def attrsetter(path: str) -> Callable[[Any], Any]:
